@@ -187,11 +187,13 @@ struct filler<1>
     {
         // operator() creates a missing bin with a zero count and leaves an existing one alone:
         // assigning zero here made an accumulating dense fill lose the counts gathered so far
+        // (the keys may be negative: divide by a signed width, not by the unsigned bin_width)
+        auto const width = static_cast<std::ptrdiff_t>(bin_width);
         for (auto i = std::get<0>(lower); static_cast<std::size_t>(std::get<0>(upper) - i) >= bin_width; i += bin_width)
         {
-            static_cast<void>(hist(i / bin_width));
+            static_cast<void>(hist(i / width));
         }
-        static_cast<void>(hist(std::get<0>(upper) / bin_width));
+        static_cast<void>(hist(std::get<0>(upper) / width));
     }
 };
 
@@ -419,6 +421,13 @@ public:
     {
         gil_function_requires<ImageViewConcept<SrcView>>();
         using channel_t = typename channel_type<SrcView>::type;
+        // bin_width is unsigned: dividing a signed channel by it converts the channel to std::size_t
+        // first (-4 / 3 gave the key 84 for an 8-bit channel). Divide in the channel's own signedness.
+        using width_t = typename std::conditional
+            <
+                std::is_signed<channel_t>::value, std::ptrdiff_t, std::size_t
+            >::type;
+        width_t const width = static_cast<width_t>(bin_width);
 
         for (std::ptrdiff_t src_y = 0; src_y < srcview.height(); ++src_y)
         {
@@ -431,7 +440,7 @@ public:
                 // the proxy and the division below was written into the source image
                 typename SrcView::value_type scaled_px = src_it[src_x];
                 static_for_each(scaled_px, [&](channel_t& ch) {
-                    ch = ch / bin_width;
+                    ch = ch / width;
                 });
                 auto key = key_from_pixel<Dimensions...>(scaled_px);
                 if (!setlimits ||
